@@ -117,6 +117,16 @@ struct OpPlan {
     finish_after: usize,
     /// extra next() calls after the end of the stream
     extra_next: usize,
+    /// script mode: stream calls are commanded one by one (Some) instead of planned (None)
+    cmds: Option<std::sync::Arc<tokio::sync::Mutex<tokio::sync::mpsc::UnboundedReceiver<Cmd>>>>,
+    /// script mode: where the actor reports how far it got (0 = running, 1 = stream ready, 2 = done)
+    status: Option<std::sync::Arc<std::sync::atomic::AtomicU8>>,
+}
+
+#[derive(Clone, Copy, Debug, PartialEq)]
+enum Cmd {
+    Next,
+    Finish,
 }
 
 fn classify(e: &LdapError) -> &'static str {
@@ -127,7 +137,11 @@ fn classify(e: &LdapError) -> &'static str {
 }
 
 async fn actor(p: OpPlan, mut ldap: Ldap, completed: std::sync::Arc<std::sync::Mutex<Vec<i64>>>) {
+    let status = p.status.clone();
     actor_inner(p, &mut ldap, &completed).await;
+    if let Some(st8) = status {
+        st8.store(2, std::sync::atomic::Ordering::SeqCst);
+    }
 }
 
 async fn actor_inner(p: OpPlan, ldap: &mut Ldap, completed: &std::sync::Arc<std::sync::Mutex<Vec<i64>>>) {
@@ -180,8 +194,17 @@ async fn actor_inner(p: OpPlan, ldap: &mut Ldap, completed: &std::sync::Arc<std:
                     emit(format!("\"ev\":\"Ret\",\"o\":\"o{}\",\"r\":\"null\",\"tok\":0", o));
                     let mut calls = 0;
                     let mut extra = p.extra_next;
+                    if let Some(st8) = &p.status {
+                        st8.store(1, std::sync::atomic::Ordering::SeqCst);
+                    }
                     loop {
-                        if calls >= p.finish_after {
+                        if let Some(rx) = &p.cmds {
+                            // commanded: wait for the controller
+                            match rx.lock().await.recv().await {
+                                Some(Cmd::Next) => {}
+                                Some(Cmd::Finish) | None => break,
+                            }
+                        } else if calls >= p.finish_after {
                             break;
                         }
                         calls += 1;
@@ -198,6 +221,9 @@ async fn actor_inner(p: OpPlan, ldap: &mut Ldap, completed: &std::sync::Arc<std:
                             "\"ev\":\"RetNext\",\"o\":\"o{}\",\"r\":\"{}\",\"tok\":{},\"st\":\"{:?}\"",
                             o, what, tok, st.state()
                         ));
+                        if p.cmds.is_some() {
+                            continue;
+                        }
                         if stop {
                             if extra > 0 {
                                 extra -= 1;
@@ -400,6 +426,8 @@ fn run_scenario(seed: u64, prof: &Profile, out: &mut Vec<String>, rep: &mut Repo
                     target,
                     finish_after: if rng.gen_bool(0.3) { rng.gen_range(0..3) } else { usize::MAX },
                     extra_next: if rng.gen_bool(0.2) { 1 } else { 0 },
+                    cmds: None,
+                    status: None,
                 };
                 if kind == Kind::Unbind {
                     unbound = true;
@@ -582,6 +610,249 @@ fn run_scenario(seed: u64, prof: &Profile, out: &mut Vec<String>, rep: &mut Repo
     rep.add("operations", nops_total as u64);
     out.push(format!("{{\"seq\":0,\"ev\":\"Reset\",\"seed\":{}}}", seed));
     out.extend(lines);
+}
+
+/// S -> I: execute one TLC-generated environment script (GenConn) against the real code. Returns false if the script
+/// could not be followed to the end because the implementation resolved a race the other way the model also allows
+/// (e.g. a zero-length timeout fired before the driver ran); the events recorded up to that point are still validated.
+fn run_script(n: u64, script: &[serde_json::Value], out: &mut Vec<String>, rep: &mut Report) -> bool {
+    let rt = Builder::new_current_thread()
+        .enable_time()
+        .start_paused(true)
+        .rng_seed(RngSeed::from_bytes(&n.to_le_bytes()))
+        .build()
+        .unwrap();
+    ldap3::verif::install();
+    let mut followed = true;
+    rt.block_on(async {
+        let mut rng = StdRng::seed_from_u64(n);
+        T0.with(|t| t.set(Some(tokio::time::Instant::now())));
+        let io = MockIo::new();
+        let (conn, ldap) = LdapConnAsync::verif_from_io(Box::new(io.clone()));
+        let drv = tokio::spawn(async move {
+            use futures::FutureExt;
+            let r = std::panic::AssertUnwindSafe(conn.drive()).catch_unwind().await;
+            let how = match r {
+                Ok(Ok(())) => "exitOk",
+                Ok(Err(_)) => "exitErr",
+                Err(_) => "panicked",
+            };
+            emit(format!("\"ev\":\"DrvExit\",\"how\":\"{}\"", how));
+        });
+        let mut ldap = Some(ldap);
+        let completed: std::sync::Arc<std::sync::Mutex<Vec<i64>>> = Default::default();
+        let mut pending: Vec<Pending> = vec![];
+        let mut known_ids: Vec<i32> = vec![];
+        let mut tok = 0i64;
+        let mut now = 0u64;
+        let mut net_up = true;
+        // per slot: (wire id, command sender, status, join handle)
+        struct Slot {
+            id: i64,
+            tx: Option<tokio::sync::mpsc::UnboundedSender<Cmd>>,
+            status: std::sync::Arc<std::sync::atomic::AtomicU8>,
+            task: tokio::task::JoinHandle<()>,
+        }
+        let mut slots: std::collections::HashMap<String, Slot> = Default::default();
+        let mut nstarted = 0i64;
+        for step in script {
+            let a = step["a"].as_str().unwrap_or("");
+            let oname = step["o"].as_str().unwrap_or("none").to_string();
+            match a {
+                "start" => {
+                    nstarted += 1;
+                    let kind = match step["k"].as_str().unwrap() {
+                        "single" => Kind::Single,
+                        "search" => Kind::Search,
+                        "abandon" => Kind::Abandon,
+                        _ => Kind::Unbind,
+                    };
+                    let target = match step["tg"].as_str() {
+                        Some("none") | None => 0,
+                        Some(t) => slots.get(t).map(|s| s.id as i32).unwrap_or(0),
+                    };
+                    let (tx, rx) = tokio::sync::mpsc::unbounded_channel();
+                    let status = std::sync::Arc::new(std::sync::atomic::AtomicU8::new(0));
+                    let plan = OpPlan {
+                        o: oname.trim_start_matches('o').parse().unwrap(),
+                        kind,
+                        tmo: step["t"].as_i64().unwrap(),
+                        adapted: step["ad"].as_bool().unwrap_or(false),
+                        target,
+                        finish_after: usize::MAX,
+                        extra_next: 0,
+                        cmds: Some(std::sync::Arc::new(tokio::sync::Mutex::new(rx))),
+                        status: Some(status.clone()),
+                    };
+                    let task = tokio::spawn(actor(plan, ldap.as_ref().unwrap().clone(), completed.clone()));
+                    slots.insert(oname.clone(), Slot { id: nstarted, tx: Some(tx), status, task });
+                }
+                "next" | "finish" => {
+                    let ok = match slots.get(&oname) {
+                        Some(s) if s.status.load(std::sync::atomic::Ordering::SeqCst) == 1 => {
+                            s.tx.as_ref().map(|t| t.send(if a == "next" { Cmd::Next } else { Cmd::Finish }).is_ok()).unwrap_or(false)
+                        }
+                        _ => false,
+                    };
+                    if !ok {
+                        followed = false;
+                        break;
+                    }
+                }
+                "srv" => {
+                    let id = slots.get(&oname).map(|s| s.id).unwrap_or(-1);
+                    let typ = step["typ"].as_str().unwrap();
+                    match pending.iter().position(|p| p.id == id) {
+                        Some(i) if net_up => {
+                            let p = pending[i].clone();
+                            tok += 1;
+                            let bytes = response_bytes(p.id, p.app, typ, tok, &mut rng);
+                            emit(format!("\"ev\":\"SrvSend\",\"id\":{},\"typ\":\"{}\",\"tok\":{}", p.id, typ, tok));
+                            push_chunked(&io, &bytes, &mut rng);
+                            if typ == "res" || typ == "done" {
+                                pending.remove(i);
+                            }
+                        }
+                        _ => {
+                            followed = false;
+                            break;
+                        }
+                    }
+                }
+                "orphan" => {
+                    let id = if oname == "none" { 0 } else { slots.get(&oname).map(|s| s.id).unwrap_or(0) };
+                    let typ = step["typ"].as_str().unwrap();
+                    if pending.iter().any(|p| p.id == id) || (id != 0 && !completed.lock().unwrap().contains(&id)) {
+                        followed = false;
+                        break;
+                    }
+                    tok += 1;
+                    let bytes = response_bytes(id, if typ == "res" { 0 } else { 3 }, typ, tok, &mut rng);
+                    emit(format!("\"ev\":\"SrvOrphan\",\"id\":{},\"typ\":\"{}\",\"tok\":{}", id, typ, tok));
+                    push_chunked(&io, &bytes, &mut rng);
+                }
+                "tick" => {
+                    now += 1;
+                    settle().await;
+                    tokio::time::advance(Duration::from_millis(1)).await;
+                    emit(format!("\"ev\":\"Tick\",\"now\":{}", now));
+                }
+                "close" => {
+                    let how = step["how"].as_str().unwrap();
+                    emit(format!("\"ev\":\"SrvClose\",\"how\":\"{}\"", how));
+                    match how {
+                        "eof" => {
+                            io.push(Item::Eof);
+                            net_up = false
+                        }
+                        "reset" => {
+                            io.push(Item::Err(std::io::ErrorKind::ConnectionReset));
+                            net_up = false
+                        }
+                        _ => {
+                            let w = io.0.lock().unwrap().written;
+                            io.fail_writes_at(w, std::io::ErrorKind::BrokenPipe);
+                        }
+                    }
+                }
+                "garbage" => {
+                    emit("\"ev\":\"SrvGarbage\"".to_string());
+                    io.push_bytes(&[0x04, 0x03, 0x41, 0x42, 0x43]);
+                    io.push(Item::Eof);
+                    net_up = false;
+                }
+                _ => {}
+            }
+            settle().await;
+            absorb_written(&io, &mut pending, &mut known_ids);
+            // (the peer's reaction to an unbind is a stimulus of the script itself, not automatic here)
+        }
+        if io.shutdown_seen() && net_up {
+            // the client unbound and the script never closed the peer's side: the peer closes now
+            net_up = false;
+            emit("\"ev\":\"SrvClose\",\"how\":\"eof\"".to_string());
+            io.push(Item::Eof);
+            settle().await;
+        }
+        // wind down: finish every stream, let timers fire, answer what is pending, drop, close
+        for s in slots.values_mut() {
+            if let Some(tx) = s.tx.take() {
+                let _ = tx.send(Cmd::Finish);
+            }
+        }
+        settle().await;
+        for _ in 0..3 {
+            now += 1;
+            settle().await;
+            tokio::time::advance(Duration::from_millis(1)).await;
+            emit(format!("\"ev\":\"Tick\",\"now\":{}", now));
+            settle().await;
+        }
+        absorb_written(&io, &mut pending, &mut known_ids);
+        if net_up {
+            for p in pending.clone() {
+                if p.abandoned {
+                    continue;
+                }
+                tok += 1;
+                let typ = if p.app == 3 { "done" } else { "res" };
+                let bytes = response_bytes(p.id, p.app, typ, tok, &mut rng);
+                emit(format!("\"ev\":\"SrvSend\",\"id\":{},\"typ\":\"{}\",\"tok\":{}", p.id, typ, tok));
+                io.push_bytes(&bytes);
+                settle().await;
+            }
+        }
+        settle().await;
+        let mut hung = false;
+        for (name, s) in slots {
+            if s.task.is_finished() {
+                if let Err(e) = s.task.await {
+                    if e.is_panic() {
+                        emit(format!("\"ev\":\"Panic\",\"o\":\"{}\"", name));
+                    }
+                }
+            } else {
+                hung = true;
+                emit(format!("\"ev\":\"Hang\",\"o\":\"{}\"", name));
+                s.task.abort();
+            }
+        }
+        if !hung {
+            if let Some(l) = ldap.as_ref() {
+                let (last, used) = l.verif_msgmap();
+                emit(format!("\"ev\":\"Quiet\",\"last\":{},\"used\":{:?}", last, used));
+            }
+        }
+        drop(ldap.take());
+        emit("\"ev\":\"DropHandles\"".to_string());
+        settle().await;
+        if net_up {
+            emit("\"ev\":\"SrvClose\",\"how\":\"eof\"".to_string());
+            io.push(Item::Eof);
+            settle().await;
+        }
+        if drv.is_finished() {
+            let _ = drv.await;
+        } else {
+            emit("\"ev\":\"Hang\",\"o\":\"driver\"".to_string());
+            drv.abort();
+        }
+        emit(format!(
+            "\"ev\":\"ClientClosed\",\"shutdown\":{},\"dropped\":{}",
+            io.shutdown_seen(),
+            std::sync::Arc::strong_count(&io.0) == 1
+        ));
+    });
+    let lines = ldap3::verif::take();
+    rep.eval(true, hash_of(&lines));
+    rep.count(if followed { "scripts_followed_to_the_end" } else { "scripts_cut_short_by_an_allowed_race" });
+    rep.add("events", lines.len() as u64);
+    if rep.samples.len() < 2 {
+        rep.sample(json!({"script": script, "events": lines.iter().take(12).collect::<Vec<_>>()}));
+    }
+    out.push(format!("{{\"seq\":0,\"ev\":\"Reset\",\"seed\":{}}}", n));
+    out.extend(lines);
+    followed
 }
 
 /// C05 stress lane: a multi-thread runtime, many cloned handles on many tasks issuing short operations against an
@@ -775,6 +1046,36 @@ fn main() {
         }
         f.flush().unwrap();
         rep.write(&a[8]);
+        return;
+    }
+    if a.len() >= 6 && a[1] == "script" {
+        // conn-run script <tlc-out> <out.ndjson> <keep-one-in-N> <report>
+        let keep: u64 = a[4].parse().unwrap();
+        let seed = verif_harness::seed_from_env();
+        let mut rep = Report::new("conn-script");
+        let mut out = vec![];
+        let mut seen = std::collections::HashSet::new();
+        let mut n = 0u64;
+        verif_harness::tlcout::for_each_tagged(&a[2], "VEC", |v| {
+            let sc = v["script"].as_array().cloned().unwrap_or_default();
+            let h = hash_of(&serde_json::to_string(&sc).unwrap());
+            if !seen.insert(h) {
+                return;
+            }
+            rep.count("distinct_scripts");
+            if keep > 1 && (h.wrapping_add(seed)) % keep != 0 {
+                return;
+            }
+            n += 1;
+            run_script(n, &sc, &mut out, &mut rep);
+        })
+        .expect("read scripts");
+        let mut f = std::io::BufWriter::new(std::fs::File::create(&a[3]).unwrap());
+        for l in &out {
+            writeln!(f, "{}", l).unwrap();
+        }
+        f.flush().unwrap();
+        rep.write(&a[5]);
         return;
     }
     if a.len() >= 4 && a[1] == "alloc" {
